@@ -214,6 +214,14 @@ class Wiretap:
                 s = Session(h['spi_i'], h['spi_r'])
                 s.opaque = 'no matching IKE_SA_INIT pair opens it'
                 self.sessions[key] = s
+                others = [k for k in self.init_ress if k[0] == h['spi_i'] and k[1] != h['spi_r'] and self.init_ress[k]]
+                if not self.init_ress.get(key) and others and h['exch'] == R.IKE_AUTH and h['I'] and not h['R'] and h['id'] == 1 and \
+                        any(q[3] == sender for q in self.init_reqs.get(h['spi_i'], [])):
+                    # the initiator answers an IKE_SA_INIT exchange with an IKE_AUTH addressed to a responder SPI that no IKE_SA_INIT response
+                    # carrying an SA payload ever had (those had other SPIs): SPIr, which goes into the key derivation, is not the one of the
+                    # exchange it completed (a COOKIE / INVALID_KE_PAYLOAD answer of an earlier round carried it)
+                    self.problem('ike_auth_to_spi_of_no_sa_response', f'{sender}: IKE_AUTH request for {h["spi_i"].hex()}/{h["spi_r"].hex()}, but the '
+                                 f'IKE_SA_INIT responses that completed an exchange for this SPIi had SPIr {[k[1].hex() for k in others]}', meta)
                 if self.init_ress.get(key):
                     self.problem('cannot_open_protected_message', f'{sender}: first protected message of IKE_SA {h["spi_i"].hex()}/{h["spi_r"].hex()} '
                                  f'does not verify under the keys the reference derives from the IKE_SA_INIT exchange on the wire', meta, stage='first')
